@@ -267,8 +267,9 @@ class Gen:
             return S()(r.choice("+-"))
         if k == 26 and not need:
             return ufl.div(self.vector(d - 1, []))
-        if k == 27 and self.allow_known and r.random() < 0.3:
-            return ufl.PermutationSymbol(2)[self.fx(), self.fx()] * S()      # known finding
+        if k == 27 and not need and r.random() < 0.5:
+            i, j = Index(), Index()
+            return ufl.PermutationSymbol(2)[i, j] * self.matrix(d - 1, [])[i, j]
         return prod()
 
     def vector(self, d, need):
@@ -1012,6 +1013,41 @@ def diff_builder(T, rng):
 
 
 diff_builder.stream = "diff"
+
+
+# -------------------------------------------------------------------------------------------------
+# permutation symbol with FREE indices (fixed indices are folded by the constructor and never reach
+# PermutationSymbol.evaluate)
+
+N_EPS = 9
+
+
+def eps_builder(n):
+    def build(T, rng):
+        g = T.g
+        eps = ufl.PermutationSymbol(g)
+        f, h, v, w, M = T.f[0], T.f[1], T.v[0], T.v[1], T.M[0]
+        if g == 2:
+            i, j = ufl.indices(2)
+            s0 = eps[i, j] * M[i, j]
+            vec = ufl.as_tensor(eps[i, j] * v[j], (i,))
+        else:
+            i, j, k = ufl.indices(3)
+            s0 = eps[i, j, k] * M[i, j] * v[k]
+            vec = ufl.as_tensor(eps[i, j, k] * v[j] * w[k], (i,))
+        m = n // 2
+        if m == 0:
+            return s0, ()
+        if m == 1:
+            return vec, (n % g,)
+        if m == 2:
+            return ufl.conditional(ufl.lt(s0, f), f + 1, h - 1), ()
+        if m == 3:
+            return ufl.max_value(s0, f) + abs(s0), ()
+        return (s0 * f + vec[0]) / (2 + s0 * s0), ()
+    build.cell = "triangle" if n % 2 == 0 else "tetrahedron"
+    build.stream = "eps"
+    return build
 
 
 def run_case(idx, seed, depth, exact_only=False, allow_known=True, build=None):
